@@ -609,15 +609,24 @@ def _over_digit_limit(case, what, m):
 PREDICATES = {'range_numeral_over_int_digit_limit': _over_digit_limit}
 
 MANIFEST = dict(
-    text=('Proof: C17_range_sound (for ANY int parser: a returned range satisfies 0 <= s < e <= len), C17_range_rfc (with '
-          'the concrete decimal parser, a header from the RFC 7233 grammar yields exactly the first range clipped to the '
-          'file, None exactly when it selects no byte), C17_consistent (206: Content-Range, Content-Length and the '
-          'concatenated chunks describe the same slice, every chunk is non-empty and at most the streaming buffer, fuel '
-          'suffices; 200: whole file, true length), C17_conditional (date >= mtime: 304, no body, file not opened) and '
-          'C17_head, all for ALL files, headers and buffer sizes > 0.  The model (coq/model/Range.v) is tied to /repo on '
-          'every run by real calls of static_file, get_first_range and _file_iter_range on real files.'),
-    note=('Trusted: Coq kernel + vm_compute; extraction; the Python harness; parse_date is an arbitrary function in the '
-          'theorems.  Modelled not verified: int() parsing, decimal formatting, regular-file read semantics.'),
+    text=('Proof (Coq, all theorems closed under the global context): C17_range_sound (for ANY int parser a returned range '
+          'satisfies 0 <= s < e <= len), C17_range_rfc + C17_rfc_none_iff_unsatisfiable (with the concrete decimal parser a '
+          'header "bytes=" first-spec ["," anything] of the RFC 7233 grammar, numerals of at most 4300 digits, yields '
+          'exactly the first spec clipped to the file, None exactly when it selects no byte), C17_iter_exact_and_bounded '
+          '(_file_iter_range delivers exactly file[offset:offset+n] in non-empty chunks of at most the streaming buffer; '
+          'the fuel suffices), C17_consistent (206: Content-Range, Content-Length and the delivered chunks describe the '
+          'same slice; else 416 without file bytes), C17_whole_file (200, true length), C17_conditional / '
+          'C17_ims_absent_or_empty (date >= mtime: 304, no body, file not opened; otherwise 200/206/416), C17_head, '
+          'C17_decimal_text_denotes (the decimal header texts read back as the numbers), for ALL files, headers, dates '
+          'and buffer sizes > 0.  C17_range_rfc_digit_limit_refuted records the known finding C17-int-digit-limit '
+          '(a numeral of more than 4300 digits makes int() raise => 416).  The model (coq/model/Range.v, '
+          'coq/lib/PyIntParse.v) is tied to /repo on every run by real calls of static_file, get_first_range and '
+          '_file_iter_range on real files (extracted OCaml + vm_compute), and an independent oracle states RFC 7233 '
+          'and the slice/length/chunk consistency directly on the implementation.'),
+    note=('Trusted: Coq kernel + vm_compute; extraction; the Python harness; parse_date and int() are arbitrary functions '
+          'in the soundness/consistency theorems.  Modelled not verified: int() parsing (ASCII digits, underscores, '
+          'Unicode spaces, 4300-digit limit), decimal formatting, regular-file read/seek semantics.  Not covered: '
+          'file changes between stat and read, Last-Modified/Date values, non-ASCII decimal digits (not latin-1).'),
     technique='Coq proof (case analysis of the parser, loop invariant of the chunk iterator on fuel) + model/implementation correspondence',
     design_ref='DESIGN.md section 4, C17',
 )
